@@ -212,7 +212,7 @@ def inner_root_profile(Fc):
     return int((im == 0).sum()), (float(nz.min()) if len(nz) else None)
 
 
-def near_collision_cheb(rng, d, tries=40, lo_exp=-7.8, hi_exp=-2.2):
+def near_collision_cheb(rng, d, tries=40, lo_exp=-7.8, hi_exp=-2.2, real_side=False):
     """the same for phase finding: Chebyshev coefficient vector c (degree d, definite parity, 1-norm in [0.15, 0.85],
     |c_d| >= 0.12 |c|_1 - inside C03's real family) such that the capitalised, rescaled Laurent polynomial the default
     call completes, F = suc*(p + eps/2 x^d) with eps = 1e-4, suc = 1-1e-4, has an inner conjugate root pair of
@@ -275,6 +275,16 @@ def near_collision_cheb(rng, d, tries=40, lo_exp=-7.8, hi_exp=-2.2):
                 hi = mid
         side = lo if clo < counts[k + 1] else hi
         sign = -1.0 if side == lo else 1.0
+        if real_side:
+            # the other side of the collision: TWO MORE real inner roots than on the complex side (close together near the
+            # collision, well separated further away) - more root choices than the "usual" count for this degree
+            side, sign = (hi, 1.0) if side == lo else (lo, -1.0)
+            e = float(rng.uniform(-12, -2))
+            w = c.copy(); w[j] += side + sign * 10.0 ** e
+            n1 = float(np.abs(w).sum())
+            if inner_root_profile(laurent(w))[0] == max(clo, counts[k + 1]) and 0.105 <= n1 <= 0.895 and abs(w[d]) >= 0.1005 * n1:
+                return [float(x) for x in w], 0.0
+            continue
         target = 10.0 ** float(rng.uniform(lo_exp, hi_exp))
         for e in np.arange(-16.5, -1.5, 0.125):
             w = c.copy(); w[j] += side + sign * 10.0 ** e
